@@ -167,6 +167,9 @@ type ClientParams struct {
 	CDNOriginHost string `json:"cdn_origin_host,omitempty"`
 	CDNWsUrlPath  string `json:"cdn_ws_url_path,omitempty"`
 	StreamTimeout int    `json:"stream_timeout,omitempty"` // seconds; 0 = default (300)
+	// AbsTimeS != 0: the client's clock reads this many seconds since the epoch
+	// (timestamps centuries away from the server's clock), whatever SkewMS says
+	AbsTimeS int64 `json:"abs_time_s,omitempty"`
 }
 
 // ClientConfig runs the real configuration path (RawConfig -> ProcessRawConfig).
@@ -249,6 +252,9 @@ func (w *SrvWorld) ClientConfig(p ClientParams, rng *rand.Rand) (client.LocalCon
 	raw := w.rawClientConfig(p)
 	skew := time.Duration(p.SkewMS) * time.Millisecond
 	ws := common.WorldState{Rand: rngReader{rng}, Now: func() time.Time { return time.Now().Add(skew) }}
+	if p.AbsTimeS != 0 {
+		ws.Now = func() time.Time { return time.Unix(p.AbsTimeS, 0) }
+	}
 	l, r, a, err := raw.ProcessRawConfig(ws)
 	a.SessionId = p.SessionID
 	return l, r, a, err
